@@ -903,7 +903,14 @@ func (g *Gen) declWalk() []Stmt {
 			case k == 6:
 				out = append(out, PrintStmt{Ident{nm}})
 			case k == 7 || k == 8:
-				out = append(out, stmtOf(Assign{nm, val()}))
+				v := val()
+				out = append(out, stmtOf(Assign{nm, v}))
+				if l, isLit := v.(Lit); depth > 0 && (isLit && l.Kind == "nil" && g.chance(2) || g.chance(6)) {
+					// … and straight after the field, an unnamed child whose key is the same spelling
+					out = append(out, DefStmt{nm, "", []Stmt{ExprStmt{Assign{"c", lit()}}}})
+					childClosed[nm] = true
+					g.count("declwalk.field-then-child")
+				}
 			case k == 9:
 				// a discarded short-circuit chain that ends in an assignment, then a read of the same name
 				cs := []Expr{Lit{"bool", "false"}, Lit{"bool", "true"}, Lit{"int", "0"}, Ident{g.pick(names)}}
